@@ -21,6 +21,53 @@ import (
 //	            list_stores.go / read_authzmodels.go: the raw datastore token is passed through the encoder
 //
 // Every fact is a normalised source fragment; `Props/C14.lean` pins each of them (`tie_*`).
+
+// stmtHead names one statement by what it does first: "range X", "if COND", "for COND", "switch TAG", the callee and
+// its first argument of a call statement ("sort.SliceStable(stores, …)"), "defer CALL", "return …" and the full text
+// of assignments and declarations (they are short).
+func stmtHead(S func(ast.Node) string, st ast.Stmt) string {
+	callHead := func(c *ast.CallExpr) string {
+		switch len(c.Args) {
+		case 0:
+			return S(c.Fun) + "()"
+		case 1:
+			return S(c.Fun) + "(" + S(c.Args[0]) + ")"
+		}
+		return S(c.Fun) + "(" + S(c.Args[0]) + ", …)"
+	}
+	switch x := st.(type) {
+	case *ast.RangeStmt:
+		return "range " + S(x.X)
+	case *ast.IfStmt:
+		h := "if " + S(x.Cond)
+		if x.Init != nil {
+			h = "if " + S(x.Init) + "; " + S(x.Cond)
+		}
+		return h
+	case *ast.ForStmt:
+		if x.Cond != nil {
+			return "for " + S(x.Cond)
+		}
+		return "for"
+	case *ast.SwitchStmt:
+		if x.Tag != nil {
+			return "switch " + S(x.Tag)
+		}
+		return "switch"
+	case *ast.ExprStmt:
+		if c, ok := x.X.(*ast.CallExpr); ok {
+			return callHead(c)
+		}
+	case *ast.DeferStmt:
+		return "defer " + callHead(x.Call)
+	case *ast.GoStmt:
+		return "go " + callHead(x.Call)
+	case *ast.LabeledStmt:
+		return x.Label.Name + ": " + stmtHead(S, x.Stmt)
+	}
+	return S(st)
+}
+
 func init() {
 	register("Paging", func(repo string) (Result, error) {
 		var sb strings.Builder
@@ -101,6 +148,32 @@ func init() {
 			return Result{}, err
 		}
 		emitList("memStoresPaging", ls)
+		// the ORDER of ListStores' top-level statements (collect → IDs filter → name filter → sort → clamp → cut):
+		// one head per statement, in source order; and the collect loop, the two filter statements and the empty-window
+		// return in full (memStoresPaging drops them)
+		lsFn := findFunc(f, "MemoryBackend", "ListStores")
+		var lsOrder, lsSteps []string
+		nFilters := 0
+		for _, st := range lsFn.Body.List {
+			lsOrder = append(lsOrder, stmtHead(S, st))
+			switch x := st.(type) {
+			case *ast.RangeStmt: // the collect loop over the store map
+				lsSteps = append(lsSteps, S(st))
+			case *ast.IfStmt:
+				c := S(x.Cond)
+				if strings.Contains(c, "options.IDs") || strings.Contains(c, "options.Name") {
+					nFilters++
+					lsSteps = append(lsSteps, S(st))
+				} else if strings.Contains(c, "len(res)") {
+					lsSteps = append(lsSteps, S(st))
+				}
+			}
+		}
+		if nFilters == 0 {
+			return Result{}, fmt.Errorf("memory.ListStores: the IDs / name filter statements were not recognised")
+		}
+		emitList("memStoresOrder", lsOrder)
+		emitList("memStoresSteps", lsSteps)
 
 		rcFn := findFunc(f, "MemoryBackend", "ReadChanges")
 		if rcFn == nil {
